@@ -5,6 +5,7 @@
 package determ
 
 import (
+	"bytes"
 	"crypto/sha1"
 	"encoding/json"
 	"fmt"
@@ -17,6 +18,7 @@ import (
 	"strings"
 	"sync"
 
+	"github.com/openconfig/goyang/pkg/yang"
 	"verifharness/core"
 	"verifharness/fam/schema"
 	"verifharness/fam/session"
@@ -68,7 +70,70 @@ func perms(xs []string) [][]string {
 
 var rePos = regexp.MustCompile(`^([^:\s]+\.yang):(\d+):(\d+):`)
 
+// loadOrders: the accepted texts of a Session history (catalogue of the session family:
+// identities, typedefs, augments, submodules, two revisions of one module with an importer
+// that names no revision) loaded in the given, the sorted and the reversed order.
+func loadOrders(body []byte) *core.Verdict {
+	var h struct {
+		Expect [][]string `json:"expect"`
+	}
+	if err := json.Unmarshal(body, &h); err != nil || len(h.Expect) == 0 {
+		return &core.Verdict{Infra: "session case"}
+	}
+	goods := h.Expect[len(h.Expect)-1]
+	v := &core.Verdict{OK: true, Class: "load-order-of-texts", NT: len(goods) >= 2}
+	if len(goods) < 2 {
+		return v
+	}
+	tmp, err := os.MkdirTemp(core.Root+"/out", "det")
+	if err == nil {
+		defer os.RemoveAll(tmp)
+		os.Chdir(tmp)
+	}
+	run := func(ids []string) string {
+		ms := yang.NewModules()
+		for _, id := range ids {
+			if err := ms.Parse(session.Texts[id], id+".yang"); err != nil {
+				return "load of " + id + " refused: " + err.Error()
+			}
+		}
+		return session.Dump(ms, ms.Process())
+	}
+	sorted := append([]string{}, goods...)
+	sort.Strings(sorted)
+	rev := append([]string{}, sorted...)
+	sort.Sort(sort.Reverse(sort.StringSlice(rev)))
+	first := run(goods)
+	for _, ord := range [][]string{sorted, rev} {
+		v.N++
+		if d := run(ord); d != first {
+			gl, wl := strings.Split(d, "\n"), strings.Split(first, "\n")
+			diff := ""
+			for i := 0; i < len(gl) || i < len(wl); i++ {
+				g, w := "", ""
+				if i < len(gl) {
+					g = gl[i]
+				}
+				if i < len(wl) {
+					w = wl[i]
+				}
+				if g != w {
+					diff = fmt.Sprintf("%q versus %q", w, g)
+					break
+				}
+			}
+			v.OK, v.Sig = false, "result-depends-on-load-order"
+			v.Detail = fmt.Sprintf("the same texts loaded in the order %v and in the order %v give different results: %s", goods, ord, diff)
+			return v
+		}
+	}
+	return v
+}
+
 func execCase(kind byte, body []byte) *core.Verdict {
+	if bytes.Contains(body[:min(len(body), 12)], []byte(`"hist"`)) {
+		return loadOrders(body)
+	}
 	var c cas
 	if err := json.Unmarshal(body, &c); err != nil {
 		return &core.Verdict{Infra: "case: " + err.Error()}
@@ -285,6 +350,10 @@ func check(r *core.Run) {
 		}, col)
 	}
 	core.CaseSuffix = ""
+	// the texts of the Session catalogue (incl. two revisions of one module): every load-only history
+	r.DirectionA("determ", core.TLCOpts{Module: "MCSession", Cfg: "MCSession_loads.cfg", Workers: 12, HeapGB: 16, Timeout: 0}, func(i int64, body string) bool {
+		return strings.Count(body, `"op":"process"`) == 1 && strings.Count(body, `"ok":true,"op":"load"`) >= 2
+	})
 	r.ValidateTrace("determ", col, core.TLCOpts{Module: "ErrorsTrace", Cfg: "ErrorsTrace.cfg", Timeout: 0})
 	if len(cliCases) > 0 {
 		r.SubmitAll("determ", 'A', cliCases)
